@@ -1,7 +1,9 @@
 #!/usr/bin/env python3
 """seed_round.py <Cxx> [...]: prepares a seeding round for the named properties: a scratch git worktree of /repo's HEAD
 at /tmp/seed/<Cxx> and /tmp/seed/<Cxx>.avoid.txt (the mechanisms of every seed kept so far for that property, from
-seeded/*/meta.json). The prompt files /tmp/seed/<Cxx>.prompt.txt are reused as they are."""
+seeded/*/meta.json). The author's task, /tmp/seed/<Cxx>.prompt.txt, is written from scripts/seed_prompt/template.txt and the
+property's text in properties.jsonl (nothing else from /verif goes into it); scripts/seed_prompt/notes.txt is copied to
+/tmp/seed/R4.note.txt."""
 import glob, json, os, subprocess, sys
 V = "/verif"
 os.makedirs("/tmp/seed", exist_ok=True)
@@ -24,4 +26,11 @@ for cid in sys.argv[1:]:
     open("/tmp/seed/%s.avoid.txt" % cid, "w").write("\n".join(lines) + "\n")
     for f in glob.glob("/tmp/seed/%s.own.patch" % cid):
         os.remove(f)
+    prop = next(json.loads(l) for l in open(os.path.join(V, "properties.jsonl")) if json.loads(l)["id"] == cid)
+    t = open(os.path.join(V, "scripts", "seed_prompt", "template.txt")).read()
+    for k, v in (("{ID}", cid), ("{TITLE}", prop["title"]), ("{STATEMENT}", prop["statement"]), ("{QUANTIFIER}", prop["quantifier"]["text"]),
+                 ("{FILES}", ", ".join(prop.get("anchors", {}).get("files", [])))):
+        t = t.replace(k, v)
+    open("/tmp/seed/%s.prompt.txt" % cid, "w").write(t)
+    open("/tmp/seed/R4.note.txt", "w").write(open(os.path.join(V, "scripts", "seed_prompt", "notes.txt")).read())
     print(cid, "worktree ready,", (len(lines) - 2) // 2, "mechanisms to avoid")
